@@ -185,12 +185,13 @@ Internal == \/ \E g \in Gs : AddBody(g) \/ AddRet(g)
             \/ \E x \in sigS : Deliver(x) \/ SigExit(x)
             \/ \E k \in Ks : CloseSignal(k) \/ CloseLock(k) \/ CloseCrit(k) \/ CloseWait(k) \/ CloseRet(k)
 AtRestDef == AtRest <=> ~ENABLED Internal
-Adv == /\ now < MaxNow /\ (AdvIdleOnly => AtRest) /\ ~ObsPending
-       /\ now' = now + 1
-       /\ tstate' = (IF tstate = "armed" /\ deadline <= now + 1 THEN "fired" ELSE tstate)
-       /\ Obs([ev |-> "adv", now |-> now + 1])
-       /\ UNCHANGED <<cfg, kind, lock, closed, closeCh, cancelled, wg, pendSet, hasTimer, deadline, curDur, tokS, sigS,
-                      rpc, tch, apc, aid, aleft, nextId, cpc, chelp, cons, counted, cov>>
+(* the clock is moved to t: a timer whose deadline is reached fires (its channel gets a value) *)
+AdvTo(t) == /\ now' = t
+            /\ tstate' = (IF tstate = "armed" /\ deadline <= t THEN "fired" ELSE tstate)
+            /\ Obs([ev |-> "adv", now |-> t])
+            /\ UNCHANGED <<cfg, kind, lock, closed, closeCh, cancelled, wg, pendSet, hasTimer, deadline, curDur, tokS, sigS,
+                           rpc, tch, apc, aid, aleft, nextId, cpc, chelp, cons, counted, cov>>
+Adv == /\ now < MaxNow /\ (AdvIdleOnly => AtRest) /\ ~ObsPending /\ AdvTo(now + 1)
 Cancel == /\ AllowCancel /\ ~cancelled /\ ~ObsPending /\ cancelled' = TRUE /\ Obs([ev |-> "cancel"])
           /\ UNCHANGED <<cfg, kind, now, lock, closed, closeCh, wg, pendSet, hasTimer, tstate, deadline, curDur, tokS, sigS,
                          rpc, tch, apc, aid, aleft, nextId, cpc, chelp, cons, counted, cov>>
